@@ -11,7 +11,7 @@ do-approve and missing-approve."""
 import collections, json, os, shutil, subprocess
 from concurrent.futures import ThreadPoolExecutor
 from vlib import common as C
-from vlib import c20fam, c20run, c20model
+from vlib import c20fam, c20run, c20model, c20corpus
 from vlib import session as S
 
 KNOWN = {
@@ -97,7 +97,16 @@ def main(ctx):
         # ---- 1. the family through drc ----
         fam = list(c20fam.family(index, global_dedupe=quick))
         total = len(fam)
-        run = select(fam, 5000) if quick else fam
+        if quick:
+            # truncations and deletions are the mutations that shorten a token list: all of them for the parsers
+            # without a theorem, a sample for the Cisco parser (theorem + correspondence), a sample of the rest
+            short = [c for c in fam if ('trunc' in c['label'] or '-del' in c['label'])]
+            other = [c for c in fam if not ('trunc' in c['label'] or '-del' in c['label'])]
+            run = ([c for c in short if c['model'] not in ('ASA', 'IOS')] + select([c for c in short if c['model'] in ('ASA', 'IOS')], 1500)
+                   + select(other, 2000))
+        else:
+            run = fam
+        run = c20corpus.drc_cases() + run
         res = c20run.run_family(ctx, run)
         classes = collections.Counter()
         bymodel = collections.Counter()
@@ -152,7 +161,8 @@ def main(ctx):
                 if len(t) < 6000 and k not in seen and c20model.ascii_only(t):
                     seen.add(k)
                     mut.append(k)
-        jobs = select(jobs, 150 if quick else 400) + select(mut, 450 if quick else 6000)
+        corpus_jobs = [k for k in c20corpus.parse_cases() if k not in seen]
+        jobs = corpus_jobs + select(jobs, 150 if quick else 400) + select(mut, 450 if quick else 6000)
         ires = c20model.impl_parse(ctx, jobs)
         v = c20model.verdicts(ctx, jobs, ires)
         mcl = collections.Counter('panic' if r['Panic'] else 'error' if r['Err'] else 'config' for r in ires)
